@@ -140,7 +140,7 @@ class Env:
         if rec.get("noise") is not None:
             nz = np.asarray(rec["noise"], dtype=float)[: x.size]
             x = x + rec["noise_size"] * np.resize(nz, x.size)
-        return build.make(c_sys, typ, x, m=rec["case"].get("m"), on_para_eq_constraint=rec["flag"])
+        return build.make(c_sys, typ, x, m=rec["case"].get("m"), mshape=rec["case"].get("mshape"), on_para_eq_constraint=rec["flag"])
 
 
 def apply_op(name, objs, params, env):
